@@ -16,13 +16,15 @@ LEAN_TARGETS = ['XdocModel.Proofs.C12', 'XdocModel.Pins.Bracket']
 MANIFEST = {
     'text': ("Partial. Proved for ALL bodies (arbitrary functions on the process state: they may replace sys.stdout, rebind or edit "
              "warnings.filters, edit sys.path), ALL endings (normal, Exception, SystemExit, KeyboardInterrupt) and all part lists of "
-             "the bracket model (CaptureStdout start/stop/__exit__, warnings.catch_warnings, PythonPathContext as repaired by bc2ba1f, "
+             "the bracket model (CaptureStdout start/stop/__exit__, warnings.catch_warnings, PythonPathContext as repaired by bc2ba1f b193b74 c14b47c, "
              "arranged as in DocTest.run): `stdout_restored` / `stdout_restored_after_part`, `stderr_untouched`, `filters_restored` "
              "(same list object, same contents, showwarning and _showwarnmsg_impl), `syspath_restored` (body leaves sys.path alone => "
-             "the list is restored exactly and silently, import succeeding or failing, every index -(len+1)..len), "
-             "`syspath_restored_far_index`, `exit_no_index_error` (stored index >= 0: never IndexError); partial for bodies that edit "
-             "sys.path: `syspath_one_occurrence_removed` (exactly one occurrence of the temporary entry goes, all other entries keep "
-             "their order; RuntimeError only when it is absent). Witness `far_negative_index_leaks` = K-C12-a. Observed, not proved: "
+             "the list is restored exactly and silently, import succeeding or failing, every index <= len incl. every negative integer), "
+             "`syspath_restored_far_index`, `syspath_restored_every_index` (EVERY integer index: same entries afterwards, no "
+             "RuntimeError/IndexError; the very same list for every index <= len and whenever the directory was not already listed), "
+             "`withPPC_no_index_error`; partial for bodies that edit sys.path: `syspath_one_occurrence_removed` (exactly one occurrence "
+             "of the temporary entry goes, all other entries keep their order — also when the warning about the mangled path is raised "
+             "as an error, which happens after the removal; RuntimeError only when it is absent). Observed, not proved: "
              "that `with` runs __exit__ on BaseException, that asyncio.run leaves no loop running, sys.stderr identity — by the outcome "
              "matrix on the real DocTest.run (state snapshots before/after compared with the model and with 'before = after'), on "
              "import_module_from_path (importable / raising / SystemExit / KeyboardInterrupt / missing modules x index x module-level "
@@ -36,9 +38,9 @@ RULE = ('(1) DocTest.run on generated modules: terminating kind (pass, output mi
         'all skipped [native and pytest mode], import failure / SystemExit / KeyboardInterrupt while importing, SystemExit, '
         'KeyboardInterrupt, capture stream closed by the doctest) x position of the terminating part (first/middle/last) x on_error x '
         'effects of every part (print, replace sys.stdout, simplefilter, rebind warnings.filters, replace showwarning, top-level await, '
-        'sys.path edits) x module-level sys.path edits: identity of sys.stdout/sys.stderr/warnings.filters/showwarning, copies of '
+        'sys.path edits) x module-level sys.path edits (also with warnings turned into errors): identity of sys.stdout/sys.stderr/warnings.filters/showwarning, copies of '
         'sys.path and filters, running-loop check, before and after; after-state vs model op `runbracket`, and before = after whenever '
-        'no body edits sys.path; (2) import_module_from_path: module kind x index (-1, 0, inside, end, beyond, very negative) x '
+        'no body edits sys.path; (2) import_module_from_path: module kind x index (-1, 0, inside, end, beyond, very negative) x warnings-as-errors x '
         'module-level sys.path edits vs op `ppc`; (3) PythonPathContext histories on a synthetic sys.path (nested contexts, re-entered '
         'objects, inserts/removes in between) vs op `ppc`; (4) runner.doctest_module on [pass, TERMINATOR, pass] modules. non-trivial = '
         'every case with a terminator, an effect or an edit; distinct = distinct specification')
@@ -83,6 +85,12 @@ def matrix_specs(rng, quick):
     for mode in ('native', 'pytest'):
         for oe in ('return', 'raise'):
             specs.append({'parts': [{'effects': ['so.10', 'af.1'], 'kind': 'pass'}], 'allskip': True, 'mode': mode, 'on_error': oe})
+    # warnings are errors and the module under test mangles sys.path while it is imported
+    for oe in ('return', 'raise'):
+        for top in (['pi.0.%s' % enc('zz_u')], ['pi.0.%s' % enc('zz_u'), 'pa.%s' % enc('zz_t')], []):
+            for kind in ('pass', 'exception', 'sysexit'):
+                specs.append({'parts': [{'effects': ['print', 'so.10'], 'kind': kind}], 'on_error': oe, 'top': top, 'import_end': 'n',
+                              'warn_error': True})
     return specs
 
 
@@ -131,7 +139,7 @@ def eval_doctest_spec(spec, tmpdir):
     return r, fails
 
 
-INDEXES = ['-1', '0', '1', 'len', 'len+3', '-2', '-len-1', '-len-2', 'far']
+INDEXES = ['-1', '0', '1', 'len', 'len+3', '-2', '-len-1', '-len-2', 'far', '-1000']
 
 
 def import_specs(rng, quick):
@@ -140,23 +148,29 @@ def import_specs(rng, quick):
         for idx in INDEXES:
             for top in ([[]] if not exists else [[], ['pi.0.%s' % enc('zz_u')], ['pa.%s' % enc('zz_t')], ['pp'], ['SELF']]):
                 specs.append({'exists': exists, 'import_end': ie, 'index_sym': idx, 'top': top})
+    # the process runs with warnings turned into errors (-W error): a module that mangles sys.path while it is
+    # imported makes __exit__ warn; the temporary entry must be gone all the same (c14b47c)
+    for ie in ('n', 'e', 's'):
+        for idx in ('-1', '0', 'len+3', 'far'):
+            for top in ([], ['pi.0.%s' % enc('zz_u')], ['pi.0.%s' % enc('zz_u'), 'pa.%s' % enc('zz_t')], ['pp'], ['SELF']):
+                specs.append({'exists': True, 'import_end': ie, 'index_sym': idx, 'top': top, 'warn_error': True})
     return specs
 
 
 def _resolve_index(sym, n):
     return {'-1': -1, '0': 0, '1': 1, 'len': n, 'len+3': n + 3, '-2': -2, '-len-1': -n - 1, '-len-2': -n - 2,
-            'far': -2 * n - 7}[sym]
+            'far': -2 * n - 7, '-1000': -1000}[sym]
 
 
 def eval_import_spec(spec, tmpdir, unrestricted=False):
-    """`unrestricted`: also apply 'before = after' to the input class of K-C12-a (search / replay)"""
+    """(`unrestricted` is kept for old replay files: since b193b74 no index is excluded from 'before = after')"""
     spec = dict(spec)
     n = len(sys.path)
     spec['index'] = _resolve_index(spec['index_sym'], n)
     spec['top'] = [('pr.%s' % enc(tmpdir)) if t == 'SELF' else t for t in spec['top']]
     r = cb.run_import_case(spec, tmpdir, _name('i'))
     fails = []
-    k_c12_a = spec['index'] < -2 * n - 2
+    k_c12_a = False
     body_edits = bool(spec['top']) and spec.get('exists', True)
     if not body_edits and r['after_path'] != r['before_path']:
         fails.append({'what': 'sys.path after import_module_from_path differs from sys.path before', 'observed': r['after_path'],
@@ -166,8 +180,6 @@ def eval_import_spec(spec, tmpdir, unrestricted=False):
         if r['after_path'].count(tmpdir) != r['before_path'].count(tmpdir):
             fails.append({'what': 'the temporary sys.path entry of import_module_from_path was not removed',
                           'observed': r['after_path'], 'expected': 'as many %r as before' % tmpdir, 'k_c12_a': k_c12_a})
-    if k_c12_a and not unrestricted:
-        fails = []       # the model predicts this leak (witness far_negative_index_leaks); compared with the model only
     a = r['after'].rsplit(' path=', 1)[0]
     b = r['before'].rsplit(' path=', 1)[0]
     if a != b:
@@ -192,7 +204,7 @@ def ppc_history(rng):
             nobj += 1
         elif r < 0.55 and open_:
             k = open_.pop() if rng.random() < 0.8 else open_.pop(0)
-            events.append('exit:%d' % k)
+            events.append(('exitw:%d' if rng.random() < 0.3 else 'exit:%d') % k)
         elif r < 0.65:
             k = rng.randrange(nobj)
             events.append('enter:%d' % k)      # re-enter an object (its index was normalised by the first enter)
@@ -351,14 +363,18 @@ def correspondence(ctx, corr):
             corr.expect_fail(e['suite'], e['input'], e['expected'], e['impl'], e['why'])
         for s in r['samples']:
             corr.sample(s)
-    # K-C12-a witness on the real code is what the model says
+    # regression: the inputs of the repaired K-C12-a (index far below -len) and of c14b47c (mangled path, warnings are errors)
     with _scratch() as d:
         buf = io.StringIO()
         with contextlib.redirect_stdout(buf):
-            spec, r, fails = eval_import_spec({'exists': True, 'import_end': 'n', 'index_sym': 'far', 'top': []}, d)
-        corr.count('k-c12-a-witness')
-        corr.sample({'op': 'ppc', 'witness': 'K-C12-a', 'index': spec['index'], 'result': r['result'],
-                     'leaked': [p for p in r['after_path'] if p not in r['before_path']]})
+            for rs in ({'exists': True, 'import_end': 'n', 'index_sym': 'far', 'top': []},
+                       {'exists': True, 'import_end': 'n', 'index_sym': '-1', 'top': ['pi.0.%s' % enc('zz_u')], 'warn_error': True}):
+                spec, r, fails = eval_import_spec(rs, d)
+                corr.count('regression:import')
+                for f in fails:
+                    corr.expect_fail('regression:import', {'kind': 'import', 'spec': rs}, f.get('expected'), f.get('observed'), f['what'])
+                corr.sample({'op': 'ppc', 'regression': rs, 'result': r['result'],
+                             'leaked': [p for p in r['after_path'] if p not in r['before_path']]})
 
 
 # ------------------------------------------------------------------ failing-input search (real code, before = after)
@@ -429,28 +445,11 @@ def search(ctx, corr, broken):
 
 
 def classify(ctx, hit):
-    inp = hit.get('input') or {}
-    if inp.get('kind') == 'import':
-        spec = inp['spec']
-        # narrow: the index is below -2*len(sys.path)-2 AND the same import with index -1 restores sys.path
-        if spec.get('index_sym') == 'far' or (isinstance(spec.get('index'), int) and spec['index'] < -2 * len(sys.path) - 2):
-            with _scratch() as d:
-                buf = io.StringIO()
-                with contextlib.redirect_stdout(buf):
-                    _, _, fails = eval_import_spec(dict(spec, index_sym='-1'), d)
-            if not fails:
-                return 'K-C12-a'
     return None
 
 
 def replay_finding(ctx, finding):
-    if finding['id'] != 'K-C12-a':
-        return False
-    with _scratch() as d:
-        buf = io.StringIO()
-        with contextlib.redirect_stdout(buf):
-            spec, r, fails = eval_import_spec({'exists': True, 'import_end': 'n', 'index_sym': 'far', 'top': []}, d, unrestricted=True)
-    return bool(fails) and r['result'] == 'RuntimeError'
+    return False
 
 
 def replay(ctx, failing):
